@@ -160,3 +160,47 @@ Proof.
   exists a1, a2, a3, elems. unfold develop_lattice. rewrite Ha. split; [exact E1|].
   destruct H as (? & ? & ? & ? & ? & ? & ? & ? & ?). repeat (split; [assumption|]). exact E2.
 Qed.
+
+(* one and two pairs of planes (lattices infinite in the other directions) *)
+Theorem lattice_end_to_end_1d {M : Type} (unit_cell : region) (own_mat : M)
+        (leaves : Z -> list (region * M)) (dic : Z -> list sfc) (ids : list Z)
+        (cell : rcell) (bs : bounds) (spec : list Z) sa sb :
+  lc_fill cell = FSpec bs spec -> bs <> [] -> wf_bounds bs ->
+  Z.of_nat (List.length spec) = size bs ->
+  (1 <= List.length bs)%nat -> Forall trivial_range (skipn 1 bs) -> cell_shape_ok cell ->
+  extract_surfaces dic ids = [sa; sb] -> spacing sa sb <> 0 ->
+  exists a elems, develop_lattice RS dic ids cell = Ok elems /\
+    dot a (outward sa) = spacing sa sb /\ (exists k, a = rescale RS k (outward sa)) /\
+    forall p m, (exists r, In (r, m) (lattice_volumes unit_cell own_mat leaves elems) /\ r p) <->
+                lattice_owner unit_cell own_mat leaves cell [a] bs spec p m.
+Proof.
+  intros Hfill Hne Hwf Hlen Hn Hpad Hshape He Hh.
+  destruct (square_base_vectors_1 sa sb Hh) as (a & Ha & H1 & H2). rewrite <- He in Ha.
+  destruct (lattice_end_to_end unit_cell own_mat leaves cell [a] bs spec
+              Hfill Hne Hwf Hlen Hn Hpad Hshape) as (elems & E1 & E2).
+  exists a, elems. unfold develop_lattice. rewrite Ha. auto.
+Qed.
+
+Theorem lattice_end_to_end_2d {M : Type} (unit_cell : region) (own_mat : M)
+        (leaves : Z -> list (region * M)) (dic : Z -> list sfc) (ids : list Z)
+        (cell : rcell) (bs : bounds) (spec : list Z) sa sb sc sd :
+  lc_fill cell = FSpec bs spec -> bs <> [] -> wf_bounds bs ->
+  Z.of_nat (List.length spec) = size bs ->
+  (2 <= List.length bs)%nat -> Forall trivial_range (skipn 2 bs) -> cell_shape_ok cell ->
+  extract_surfaces dic ids = [sa; sb; sc; sd] ->
+  spacing sa sb <> 0 -> spacing sc sd <> 0 -> gram2 (outward sa) (outward sc) <> 0 ->
+  exists a1 a2 elems, develop_lattice RS dic ids cell = Ok elems /\
+    dot a1 (outward sa) = spacing sa sb /\ dot a1 (outward sc) = 0 /\
+    dot a2 (outward sa) = 0 /\ dot a2 (outward sc) = spacing sc sd /\
+    (exists x y, a1 = lin2 x y (outward sa) (outward sc)) /\
+    (exists x y, a2 = lin2 x y (outward sa) (outward sc)) /\
+    forall p m, (exists r, In (r, m) (lattice_volumes unit_cell own_mat leaves elems) /\ r p) <->
+                lattice_owner unit_cell own_mat leaves cell [a1; a2] bs spec p m.
+Proof.
+  intros Hfill Hne Hwf Hlen Hn Hpad Hshape He Hh1 Hh2 Hg.
+  destruct (square_base_vectors_2 sa sb sc sd Hh1 Hh2 Hg) as (a1 & a2 & Ha & H). rewrite <- He in Ha.
+  destruct (lattice_end_to_end unit_cell own_mat leaves cell [a1; a2] bs spec
+              Hfill Hne Hwf Hlen Hn Hpad Hshape) as (elems & E1 & E2).
+  exists a1, a2, elems. unfold develop_lattice. rewrite Ha. split; [exact E1|].
+  destruct H as (? & ? & ? & ? & ? & ?). repeat (split; [assumption|]). exact E2.
+Qed.
